@@ -5,7 +5,7 @@
 
   deliver <enabled> <minFee> <gasPool> <newAddr|~>
           <from> <to|~> <nonce> <value> <gas> <price> <nz> <z> <size> <memo|x>
-          <sigs> <sigOk> <chainOk> <senderOk> <feeCurOk> <amtCurOk> <addrOk>
+          <sigs> <sigOk> <chainOk> <senderOk> <feeCurOk> <amtCurOk> <addrOk> <chainNil>
           <vmGasLeft> <vmRefund> <vmFailed> <vmRetCode> <effs|-> <touched|->
           <pool> <accts>
   check   (same fields; the vm fields are ignored)
@@ -63,7 +63,7 @@ def showAcct (w : World) (a : Addr) : String :=
   | some r => s!"{a}={b}:{r.nonce}:{if r.code then 1 else 0}"
 
 def showVErr : VErr → String
-  | .notEnabled => "notEnabled" | .sigCount => "sigCount" | .sigPanic => "sigPanic" | .chainId => "chainId"
+  | .notEnabled => "notEnabled" | .sigCount => "sigCount" | .sigBad => "sigBad" | .chainId => "chainId"
   | .sender => "sender" | .feeCurrency => "feeCurrency" | .feePrice => "feePrice" | .currency => "currency"
   | .address => "address" | .oversized => "oversized" | .negative => "negative" | .gasLimit => "gasLimit"
   | .nonceLow => "nonceLow" | .funds => "funds" | .intrinsic => "intrinsic" | .memoParse => "memoParse"
@@ -117,7 +117,7 @@ structure Parsed where
 def parseFields (f : List String) : Option Parsed :=
   match f with
   | [enabled, minFee, gasPool, newAddr, from_, to, nonce, value, gas, price, nz, z, size, memo,
-     sigs, sigOk, chainOk, senderOk, feeCurOk, amtCurOk, addrOk,
+     sigs, sigOk, chainOk, senderOk, feeCurOk, amtCurOk, addrOk, chainNil,
      vmGasLeft, vmRefund, vmFailed, vmRetCode, effs, touched, pool, accts] =>
     match minFee.toInt?, gasPool.toNat?, nonce.toNat?, value.toInt?, gas.toInt?, price.toInt?, nz.toNat?, z.toNat? with
     | some minFee, some gasPool, some nonce, some value, some gas, some price, some nz, some z =>
@@ -128,7 +128,7 @@ def parseFields (f : List String) : Option Parsed :=
           tx := { sender := from_, to := optAddr to, nonce := nonce, value := value, gas := gas, price := price, nz := nz, z := z,
                   size := size, memo := if memo == "x" then none else memo.toNat?, sigs := sigs, sigOk := b01 sigOk,
                   chainOk := b01 chainOk, senderOk := b01 senderOk, feeCurOk := b01 feeCurOk, amtCurOk := b01 amtCurOk,
-                  addrOk := b01 addrOk },
+                  addrOk := b01 addrOk, chainNil := b01 chainNil },
           vm := { gasLeft := vmGasLeft, refund := vmRefund, failed := b01 vmFailed, retCode := b01 vmRetCode, effs := effs,
                   touched := if touched == "-" then [] else touched.splitOn "," },
           pool := pool, accts := accts }
